@@ -33,6 +33,7 @@ import (
 	"github.com/IrineSistiana/mosproxy/app/router"
 	"github.com/IrineSistiana/mosproxy/internal/dnsmsg"
 	"github.com/IrineSistiana/mosproxy/internal/mlog"
+	"github.com/IrineSistiana/mosproxy/internal/pool"
 	"github.com/panjf2000/gnet/v2"
 	"github.com/rs/zerolog"
 )
@@ -267,10 +268,13 @@ type c13Conn struct {
 	inb    []byte
 	handed [][]byte // slices returned by Next during the running OnTraffic
 	ctx    interface{}
-	writes [][]byte
-	cbs    []gnet.AsyncCallback
-	nAsync int
-	closed bool
+	writes [][]byte // what went on the wire, in order
+	// AsyncWrite does not copy: gnet keeps the caller's slice until the event loop performs the write and
+	// then calls the callback. The fake does the same (the octets are read when runCallbacks runs).
+	asyncBufs [][]byte
+	cbs       []gnet.AsyncCallback
+	nAsync    int
+	closed    bool
 }
 
 func (c *c13Conn) Next(n int) ([]byte, error) {
@@ -296,7 +300,7 @@ func (c *c13Conn) Write(p []byte) (int, error) {
 
 func (c *c13Conn) AsyncWrite(p []byte, cb gnet.AsyncCallback) error {
 	c.mu.Lock()
-	c.writes = append(c.writes, append([]byte(nil), p...))
+	c.asyncBufs = append(c.asyncBufs, p)
 	c.cbs = append(c.cbs, cb)
 	c.nAsync++
 	c.mu.Unlock()
@@ -322,12 +326,35 @@ func (c *c13Conn) waitAsync(n int, d time.Duration) bool {
 	return true
 }
 
-// runCallbacks runs the queued AsyncWrite callbacks on the calling ("event loop") goroutine.
+// runCallbacks performs the queued asynchronous writes on the calling ("event loop") goroutine and runs
+// their callbacks. Before the octets are read, buffers of the same size classes are taken from the pool and
+// overwritten: a response buffer that was given back to the pool too early shows up as a damaged frame.
 func (c *c13Conn) runCallbacks() {
 	c.mu.Lock()
-	cbs := c.cbs
-	c.cbs = nil
+	bufs, cbs := c.asyncBufs, c.cbs
+	c.asyncBufs, c.cbs = nil, nil
 	c.mu.Unlock()
+	if len(bufs) == 0 {
+		return
+	}
+	var scrub []pool.Buffer
+	for _, p := range bufs {
+		for i := 0; i < 3 && len(p) > 0; i++ {
+			b := pool.GetBuf(len(p))
+			for j := range b {
+				b[j] = 0xdd
+			}
+			scrub = append(scrub, b)
+		}
+	}
+	c.mu.Lock()
+	for _, p := range bufs {
+		c.writes = append(c.writes, append([]byte(nil), p...))
+	}
+	c.mu.Unlock()
+	for _, b := range scrub {
+		pool.ReleaseBuf(b)
+	}
 	for _, cb := range cbs {
 		if cb != nil {
 			cb(c, nil)
@@ -401,7 +428,12 @@ func c13StartRouter(servers []router.ServerConfig) (*router.VerifRouter, *c13Ups
 	return vr, up
 }
 
-func c13GnetSetup() { c13.vr, c13.up = c13StartRouter(nil) }
+func c13GnetSetup() {
+	// one P: the handler goroutines and the "event loop" share the per-P caches of the buffer pool, which makes
+	// the reuse of a prematurely released response buffer deterministic (see runCallbacks)
+	runtime.GOMAXPROCS(1)
+	c13.vr, c13.up = c13StartRouter(nil)
+}
 
 func c13Mix(h uint64, x int) uint64 { return (h*31 + uint64(x) + 1) % 1000000007 }
 
@@ -580,6 +612,7 @@ func c13GnetRun(cs string) string {
 			c13Pause(&spins)
 		}
 	}
+	c.runCallbacks()
 	mode, bl, rn, il, conc := c.state()
 	h.OnClose(c, nil)
 
